@@ -1,3 +1,4 @@
 pub mod asp;
 pub mod fol;
 pub mod task;
+pub mod text;
